@@ -13,6 +13,44 @@ RULE = ("random schema (SDL / introspection JSON renderings alternating) x clean
         "a case is non-trivial when its document has an abstract position, a fragment or a list field; distinct = by "
         "hash of (schema text, document text, options)")
 
+BORDERLINE_RULE = ("; plus spec-valid variants of those documents in which an abstract selection's `__typename` is moved into a named "
+                   "fragment on one member type, into an inline fragment on one member type, or dropped: the generator may refuse them "
+                   "(counted as vacuous), but whatever it accepts must deserialise every conforming payload")
+
+
+def borderline_variants(schema, doc, rng):
+    """spec-valid documents in which some abstract selection gets `__typename` only for one member type (or not at all)"""
+    import copy
+    from ..model import base
+    from ..gen_edits import positions, _path_of, _get
+    spots = []
+    for container, i, it, ptype, where, depth, in_inline in positions(schema, doc):
+        if it[0] == "field" and it[4]:
+            f = schema.field(ptype, it[2])
+            if f is not None and schema.kind(base(f["type"])) in ("interface", "union") and any(x[0] == "typename" for x in it[4]):
+                members = sorted(schema.possible(base(f["type"])))
+                if members:
+                    spots.append((container, i, members))
+    out = []
+    rng.shuffle(spots)
+    for container, i, members in spots[:2]:
+        for how in ("member-fragment", "member-inline", "dropped"):
+            d2 = copy.deepcopy(doc)
+            item = _get(d2, _path_of(doc, container, i))[i]
+            sub = [x for x in item[4] if x[0] != "typename"]
+            m = rng.choice(members)
+            if how == "member-fragment":
+                d2["fragments"].append({"name": "ZzTypenameOf" + m.replace("_", ""), "on": m, "sel": [["typename"]]})
+                sub.append(["spread", "ZzTypenameOf" + m.replace("_", "")])
+            elif how == "member-inline":
+                sub.insert(0, ["inline", m, [["typename"]]])
+            elif not sub:
+                continue
+            item[4] = sub
+            out.append((how, d2))
+    return out
+
+
 FLOOR = {"abstract-position": 20, "named-fragment": 5, "inline-variant": 5, "id-int": 5, "list-len-0": 5, "null": 20}
 
 
@@ -32,6 +70,15 @@ def gen_cases(run, n, prefix="c"):
         c["vectors"] = vecs
         c["payload_stats"] = stats
         out.append(c)
+        if i % 2 == 0 and ({"interface", "union"} & set(feats)):
+            for bi, (how, d2) in enumerate(borderline_variants(schema, doc, rng)[:3]):
+                b = C.make_case("%s%d_b%d" % (prefix, i, bi), schema, d2, rng, options=opts, fmt=c["schema_format"], features=list(feats) + ["borderline:" + how])
+                b["borderline"] = how
+                try:
+                    b["vectors"], b["payload_stats"] = C.resp_vectors(b, rng, n_payloads=6, n_corrupt_bases=0)
+                except RecursionError:
+                    continue
+                out.append(b)
     return out
 
 
@@ -46,6 +93,8 @@ def execute(run, cases, tag="b0"):
         if g["outcome"] != "ok":
             # C01 quantifies over operations for which generation succeeds; a clean case that is rejected is C02's business
             run.count("generation-" + g["outcome"])
+            if c.get("borderline"):
+                run.count("borderline-refused (vacuous)")
             if c["corpus"] != "clean":
                 run.witness_result(c["corpus"].split(":")[1], False)
             continue
@@ -67,6 +116,8 @@ def execute(run, cases, tag="b0"):
             run.inconclusive_case(cid, "probe exit=%s signal=%s %s" % (o and o.get("exit"), o and o.get("signal"), o and o.get("stderr")))
             continue
         run.feature(c["features"])
+        if c.get("borderline"):
+            run.count("borderline-accepted")
         for k, n in (c.get("payload_stats") or {}).items():
             run.count(k, n)
         failed = False
@@ -97,7 +148,7 @@ def execute(run, cases, tag="b0"):
 
 
 def main(run):
-    run.rule = RULE
+    run.rule = RULE + BORDERLINE_RULE
     run.assumptions = ["conforming payload = output of vlib/shape.py PayloadGen for the clean document grammar (DESIGN.md section 4)",
                        "rustc / serde / serde_json versions as pinned by /repo/Cargo.lock",
                        "custom scalars are supplied by the consumer as `String`"]
